@@ -582,9 +582,18 @@ impl HttpContext {
                 .map(ToOwned::to_owned);
         }
 
-        // if self.method == Some(Method::Get) && request.body_size == kawa::BodySize::Empty {
-        //     request.parsing_phase = kawa::ParsingPhase::Terminated;
-        // }
+        // A request without Content-Length or Transfer-Encoding has no body
+        // (RFC 9112 §6.3). kawa's H1 parser frames such a message as running
+        // until the connection closes (`Empty` + `Body`), which is only right
+        // for a response: left alone, whatever follows the header section — a
+        // pipelined request — is relayed to the backend as opaque body bytes,
+        // never parsed, routed or logged. (The H2 path resolves `Empty` itself
+        // and is not in the `Body` phase here.)
+        if request.body_size == kawa::BodySize::Empty
+            && request.parsing_phase == kawa::ParsingPhase::Body
+        {
+            request.parsing_phase = kawa::ParsingPhase::Terminated;
+        }
 
         let public_ip = self.public_address.ip();
         let public_port = self.public_address.port();
